@@ -580,3 +580,34 @@ def affine_occupancy_mapping(rng, es):
             loop.insert(rng.randint(0, len(loop)), o)
     m = {"rank-order": {}, "loop-order": {out: loop}, "partitioning": {out: {"S": ds}}}
     return m, "occ:%d" % n, {}
+
+
+def gen_shape_pairs(rng):
+    """Two Einsums in ONE specification that read a common input and shape-partition the same rank of it - with the same
+    or with different sizes / numbers of levels - each with its own loop order (state kept across Einsums, e.g. a split of
+    the shared input made for the first Einsum, must not leak into the second)."""
+    decl = {"A": ["K", "M"], "B": ["K", "N"], "C": ["K", "N"], "T": ["M", "N"], "Z": ["M", "N"]}
+    exprs = ["T[m, n] = A[k, m] * B[k, n]", "Z[m, n] = A[k, m] * %s[k, n]" % rng.choice(["C", "B", "C"])]
+    if rng.random() < 0.3:
+        exprs[1] = "Z[m, n] = A[k, m] * T[m, n] * C[k, n]"
+    m = {"rank-order": {}, "loop-order": {}, "partitioning": {}}
+    syms = {}
+    r = rng.choice(["K", "K", "M"])
+    base, _ = gen_shape_stack(rng, r, rng.choice([1, 1, 2]), sym_p=0.0)
+    for out in ("T", "Z"):
+        if rng.random() < 0.45:
+            ds = list(base)                                     # identical directives in both Einsums
+        else:
+            ds, _ = gen_shape_stack(rng, r, len(base) if rng.random() < 0.7 else rng.choice([1, 2]), sym_p=0.0)
+        m["partitioning"][out] = {r: ds}
+        loop = []
+        for x in ["M", "N", "K"]:
+            loop.extend(levels_of(x, len(ds)) if x == r else [x])
+        rng.shuffle(loop)
+        m["loop-order"][out] = loop
+    for t in ("A", "B", "C"):
+        if rng.random() < 0.4:
+            p = list(decl[t])
+            rng.shuffle(p)
+            m["rank-order"][t] = p
+    return decl, exprs, m, syms
